@@ -14,7 +14,8 @@
    Codes (list printed per failing run id; code 4 is reported under k_id):
      1  iterates: callback log / returned x differ from the model iterates x_1..x_iiter
      2  cost: |cost| <> 1 + iiter, or cost_k^2 differs from the model's entry
-     3  iiter differs from the model's run with the same niter / tol (skipped near a tie kold ~ tol)
+     3  iiter differs from the model's run with the same niter / tol (not compared when the stopping decision
+        is BORDERLINE, see near_tie; code 30 = informational: borderline and the counts do differ)
      4  the model does NOT reach the minimiser in k_nconv steps: kold <> 0 or normal equations not satisfied exactly
      5  r2norm^2 differs from the model's r2norm^2          (cgls)
      6  r1norm^2 differs from the model's r1norm^2          (cgls)
@@ -61,8 +62,19 @@ Fixpoint iter_list {St} (step : St -> St) (k : nat) (st : St) : list St :=
 Fixpoint nonincr (tol : Qc) (l : list Qc) : bool :=
   match l with a :: ((b :: _) as t) => Qcleb b (a + tol * (1 + Qcabs' a))%Qc && nonincr tol t | _ => true end.
 Definition sq (a : Qc) : Qc := (a * a)%Qc.
+(* BORDERLINE stopping decisions.  `kold > tol` is decided by rounding when, at one of the steps where the
+   loop guard is evaluated, (a) the exact kold is within a factor 16 of tol, or (b) the exact kold is below the
+   rounding-noise floor nu = 1e-18 * (sum of the exact kold values seen so far; float kold at an exactly converged
+   step is ~ (eps * cond)^2 * kold_0 << nu) AND tol itself is below 16 nu: in floating point kold is then some
+   noise value that may fall on either side of tol, so the implementation may perform more or fewer iterations
+   than the exact model.  In a borderline run the iteration count / istop are not compared; everything else is:
+   the implementation's iterates are compared with the model's unconditional iterates (stationary once kold = 0
+   exactly, so extra iterations must not move x), and the implementation-only truth checks do not depend on
+   the model's stopping step. *)
 Definition near_tie (tol : Qc) (kolds : list Qc) : bool :=
-  existsb (fun k => Qcleb (tol / qz 16)%Qc k && Qcleb k (qz 16 * tol)%Qc) kolds.
+  let nu := (fold_right Qcplus 0%Qc kolds * q 1 1000000000000000000)%Qc in
+  existsb (fun k => Qcleb (tol / qz 16)%Qc k && Qcleb k (qz 16 * tol)%Qc) kolds ||
+  (Qcleb tol (qz 16 * nu)%Qc && existsb (fun k => Qcleb k nu) kolds).
 Definition viszero (v : vec) : bool := forallb isz v.
 Definition x_init (c : kase) : vec := match k_x0 c with None => zeros F (k_n c) | Some v => v end.
 Definition wf_case (c : kase) : bool :=
@@ -97,6 +109,7 @@ Definition cmp_run (tol : Qc) (cgls inplace : bool) (tie : bool) (r : irun) (o :
   code (all2 (vcl tol) (r_cbs r) (tl xs) && vcl tol (r_x r) (last xs [])) 1 ++
   code (Nat.eqb (length (r_cost r)) (S it) && all2 (close tol) (map sq (r_cost r)) (map re (o_cost2 o))) 2 ++
   code (tie || Nat.eqb (o_iiter o) it) 3 ++
+  (if tie && negb (Nat.eqb (o_iiter o) it) then [30%nat] else []) ++
   (if cgls then
      code (close tol (sq (r_r2 r)) (re (o_r2sq o))) 5 ++
      code (close tol (sq (r_r1 r)) (re (o_r1 o))) 6 ++
@@ -119,10 +132,11 @@ Definition chk_cg (tol : Qc) (c : kase) : list (nat * list nat) :=
   map (fun r =>
     let it := r_iiter r in
     let tolF := ofQ (r_tol r) in
-    let tie := near_tie (r_tol r) (map re kolds) in
+    let itl := stop_index (r_niter r) tolF 0 kolds in
+    let tie := near_tie (r_tol r) (map re (firstn (S (Nat.max it itl)) kolds)) in
     let sf := nth it sts st0 in
     let lst := {| o_xs := map (cg_x F) (firstn (S it) sts); o_cost2 := cg_cost2 F sf; o_r1 := r0 F; o_r2sq := r0 F;
-                  o_iiter := stop_index (r_niter r) tolF 0 kolds; o_istop := 0 |} in
+                  o_iiter := itl; o_istop := 0 |} in
     let o := if r_exec r then
                let '(x, itr, cost2, log) := cg_solve F absf gtb Aop (k_n c) (k_y c) (k_x0 c) (r_niter r) tolF in
                if Nat.eqb itr it then
@@ -147,9 +161,9 @@ Definition chk_cgls (tol : Qc) (c : kase) : list (nat * list nat) :=
   map (fun r =>
     let it := r_iiter r in
     let tolF := ofQ (r_tol r) in
-    let tie := near_tie (r_tol r) (map re kolds) in
-    let sf := nth it sts st0 in
     let itl := stop_index (r_niter r) tolF 0 kolds in
+    let tie := near_tie (r_tol r) (map re (firstn (S (Nat.max it itl)) kolds)) in
+    let sf := nth it sts st0 in
     let lst := {| o_xs := map (cl_x F) (firstn (S it) sts); o_cost2 := cl_cost2 F sf; o_r1 := cgls_r1norm2 F sf;
                   o_r2sq := cgls_r2norm2 F sf; o_iiter := itl; o_istop := cgls_istop F gtb (nth itl sts st0) tolF |} in
     let o := if r_exec r then
